@@ -81,6 +81,10 @@ def u_rows_render(ctx):
             return [(None, s)]
         eng.methods[("BlockImage", "set_size")] = set_size
         image = st.new("BlockImage", {"_size": (z3.Int("old_w"), z3.Int("old_h"))})
+        # the size an earlier operation left on the image (any): what the width / height / size properties report
+        eng.attrs[("BlockImage", "width")] = lambda e, s, v: [(s.H(v)["_size"][0], s)]
+        eng.attrs[("BlockImage", "height")] = lambda e, s, v: [(s.H(v)["_size"][1], s)]
+        eng.attrs[("BlockImage", "size")] = lambda e, s, v: [(s.H(v)["_size"], s)]
         self_ = st.new("UrwidImage", {"_ti_image": image, "_ti_sizing": SizeNS.d[sizing], "_ti_alpha": None, "_ti_style_args": st.new("dict", {"@items": {}}),
                                       "_ti_h_align": "<", "_ti_v_align": "^"})
         # class-level defaults of the widget (attributes the model does not know are looked up there, as python does)
